@@ -16,7 +16,7 @@ FlagOf(b) == IF b THEN 1 ELSE 0
 
 Classes == {"life_step", "life_zero", "life_reject", "canon_repr", "sum_window", "diff_borrow", "mont_window", "mont_sqr_window", "decode_ge_n", "decode_lt_n",
             "canon_reject", "canon_accept", "inv_zero", "inv_special", "alias_all", "alias_recv",
-            "half_boundary", "gt_half", "le_half", "sum_empty", "sum_alias", "sum_long", "prod_empty",
+            "half_boundary", "gt_half", "le_half", "sum_empty", "sum_alias", "sum_long", "sum_fold_window_value", "sum_fold_window_mont", "prod_empty",
             "pow2k_panic", "near_n", "near_zero", "cneg_zero"}
 
 PostsOK(ev) ==
@@ -31,6 +31,10 @@ AliasClass(ev) == (IF ev.alias = "r=a=b" THEN {"alias_all"} ELSE {})
                   \cup (IF ev.alias \in {"r=a", "r=b"} THEN {"alias_recv"} ELSE {})
 
 VecInts(v) == [i \in 1..Len(v) |-> H(v[i])]
+(* the plain integer sum of a vector, and "within 2^132 of a multiple of 2^(8W)": the window in which a sum that defers its reduction has to fold carries *)
+RECURSIVE IntSum(_)
+IntSum(v) == IF Len(v) = 0 THEN 0 ELSE v[1] ++ IntSum(Tail(v))
+NearMult(t) == LET m == t %% TwoW IN ((m \prec Pow2(132)) \/ ((TwoW -- m) \prec Pow2(132)))
 
 (* special inversion arguments named by the property: 1, n-1, small values, powers of two *)
 InvSpecial(a) == BigEq(a, 1) \/ BigEq(a, N -- 1) \/ (a \prec 1024)
@@ -75,7 +79,9 @@ Verdict(ev) ==
          (* recv = index (1-based) of the vector entry that IS the receiver, 0 if none *)
          << Is(SSum(VecInts(ev.vec)), ev.out) /\ ev.vec_post = [i \in 1..Len(ev.vec) |-> IF i = ev.recv THEN ev.out ELSE ev.vec[i]],
             (IF Len(ev.vec) = 0 THEN {"sum_empty"} ELSE {}) \cup (IF ev.recv > 0 \/ ev.dup THEN {"sum_alias"} ELSE {})
-            \cup (IF Len(ev.vec) >= 4 THEN {"sum_long"} ELSE {}) >>
+            \cup (IF Len(ev.vec) >= 4 THEN {"sum_long"} ELSE {})
+            \cup (IF Len(ev.vec) >= 3 /\ NearMult(IntSum(VecInts(ev.vec))) THEN {"sum_fold_window_value"} ELSE {})
+            \cup (IF Len(ev.vec) >= 3 /\ NearMult(IntSum([i \in 1..Len(ev.vec) |-> (H(ev.vec[i]) ** TwoW) %% N])) THEN {"sum_fold_window_mont"} ELSE {}) >>
     [] ev.ev = "sc.Product" ->
          << Is(SProduct(VecInts(ev.vec)), ev.out) /\ ev.vec_post = [i \in 1..Len(ev.vec) |-> IF i = ev.recv THEN ev.out ELSE ev.vec[i]],
             (IF Len(ev.vec) = 0 THEN {"prod_empty"} ELSE {}) \cup (IF ev.recv > 0 \/ ev.dup THEN {"sum_alias"} ELSE {}) >>
